@@ -8,7 +8,12 @@ from . import harness
 def main(argv=None):
     argv = list(sys.argv[1:] if argv is None else argv)
     if argv and argv[0] == "replay":
-        sys.exit(harness.replay_file(argv[1]))
+        try:
+            rc = harness.replay_file(argv[1])
+        except (OSError, ValueError, KeyError, IndexError) as exc:      # no such file, not a replay file: not a verdict
+            print("CHECKER-ERROR replay: %r" % (exc,))
+            rc = 3
+        sys.exit(rc)
     if argv and argv[0] == "selftest":
         from . import selftest
         sys.exit(selftest.main(argv[1:]))
